@@ -70,6 +70,10 @@ class DataFrameSchemaBackend(PolarsSchemaBackend):
             except SchemaErrors as exc:
                 error_handler.collect_errors(exc.schema_errors)
 
+        # collect the column info again: the parsers may have added or removed
+        # columns, and the added ones have to be validated, too
+        column_info = self.collect_column_info(check_obj, schema)
+
         components = self.collect_schema_components(
             check_obj,
             schema,
